@@ -85,13 +85,13 @@ type nxPipe struct {
 	step, commit, apply, save, recover, stream, closeReady bool
 }
 
-func (p *nxPipe) setCloseReady(*node)      { p.closeReady = true }
-func (p *nxPipe) setStepReady(uint64)      { p.step = true }
-func (p *nxPipe) setCommitReady(uint64)    { p.commit = true }
-func (p *nxPipe) setApplyReady(uint64)     { p.apply = true }
-func (p *nxPipe) setStreamReady(uint64)    { p.stream = true }
-func (p *nxPipe) setSaveReady(uint64)      { p.save = true }
-func (p *nxPipe) setRecoverReady(uint64)   { p.recover = true }
+func (p *nxPipe) setCloseReady(*node)    { p.closeReady = true }
+func (p *nxPipe) setStepReady(uint64)    { p.step = true }
+func (p *nxPipe) setCommitReady(uint64)  { p.commit = true }
+func (p *nxPipe) setApplyReady(uint64)   { p.apply = true }
+func (p *nxPipe) setStreamReady(uint64)  { p.stream = true }
+func (p *nxPipe) setSaveReady(uint64)    { p.save = true }
+func (p *nxPipe) setRecoverReady(uint64) { p.recover = true }
 
 // nxLogDB wraps the shared in-memory store of one host: hook points for crash
 // injection and the durable shadow used by the C04 oracle.
@@ -128,6 +128,7 @@ type nxHost struct {
 	up    bool
 	incar int
 	// crash injection: crash when the hook counter of the current event reaches crashAt
+	outbox  []pb.Message
 	hookN   int
 	crashAt int
 	hooks   []string
@@ -162,23 +163,24 @@ type nxOp struct {
 	out     uint64 // value read / sm result
 	index   uint64
 	readyAt int // read: ReadIndex completed, waiting for the Lookup event
+	key     uint64
 }
 
 // ---------------------------------------------------------------- cluster
 
 type nxCfg struct {
-	Name       string
-	N          int
-	PreVote    bool
-	CheckQuorum bool
-	Quiesce    bool
+	Name         string
+	N            int
+	PreVote      bool
+	CheckQuorum  bool
+	Quiesce      bool
 	NotifyCommit bool
-	MaxDev     int
-	Prefix     []string
-	Script     []string
+	MaxDev       int
+	Prefix       []string
+	Script       []string
 	// budgets for deviations
 	Timeouts, Ticks, Crashes, Drops, Dups, Reorders, Writes, Reads, LazyApplies, Heartbeats, Transfers int
-	Horizon int
+	Horizon                                                                                            int
 }
 
 type nxMsg struct {
@@ -187,27 +189,27 @@ type nxMsg struct {
 }
 
 type nxCluster struct {
-	cfg   *nxCfg
-	hosts []*nxHost
-	byID  map[uint64]*nxHost
-	msgs  []nxMsg
-	seq   uint64
-	viol  string
-	clock int
-	ops   []*nxOp
-	devs  int
-	spos  int
-	lazy  map[uint64]bool // hosts whose apply worker is being held back (deviation)
-	used  struct{ timeouts, ticks, crashes, drops, dups, reorders, writes, reads, lazy, heartbeats, transfers int }
+	cfg         *nxCfg
+	hosts       []*nxHost
+	byID        map[uint64]*nxHost
+	msgs        []nxMsg
+	seq         uint64
+	viol        string
+	clock       int
+	ops         []*nxOp
+	devs        int
+	spos        int
+	lazy        map[uint64]bool // hosts whose apply worker is being held back (deviation)
+	used        struct{ timeouts, ticks, crashes, drops, dups, reorders, writes, reads, lazy, heartbeats, transfers int }
 	recordHooks bool
-	pool  *sync.Pool
+	pool        *sync.Pool
 	// monitors
-	leaderOf map[uint64]uint64
-	voteOf   map[[2]uint64]uint64
-	applied  map[uint64]string // index -> cmd first applied anywhere
-	completedW map[uint64]bool // value -> write reported Completed
-	nextVal  uint64
-	linCheck func(c *nxCluster) string
+	leaderOf   map[uint64]uint64
+	voteOf     map[[2]uint64]uint64
+	applied    map[uint64]string // index -> cmd first applied anywhere
+	completedW map[uint64]bool   // value -> write reported Completed
+	nextVal    uint64
+	linCheck   func(c *nxCluster) string
 }
 
 func (c *nxCluster) fail(format string, a ...interface{}) {
@@ -235,7 +237,7 @@ func newNxCluster(cfg *nxCfg) *nxCluster {
 		return obj
 	}
 	for i := 1; i <= cfg.N; i++ {
-		h := &nxHost{c: c, id: uint64(i), db: memlogdb.New(), fs: vfs.NewMem()}
+		h := &nxHost{c: c, id: uint64(i), db: memlogdb.New(), fs: vfs.NewMemFS()}
 		c.hosts = append(c.hosts, h)
 		c.byID[h.id] = h
 		c.startHost(h)
@@ -288,6 +290,8 @@ func (c *nxCluster) startHost(h *nxHost) {
 	c.snapshotWorker(h)
 	c.applyWorker(h)
 	raft.VPeer{P: &n.p}.Normalize()
+	h.pipe.step = true
+	c.settle(h)
 }
 
 // ---------------------------------------------------------------- worker loop bodies (REAL code)
@@ -300,8 +304,27 @@ func (c *nxCluster) stepWorker(h *nxHost) {
 		c.fail("replica %d: processSteps error %v", h.id, err)
 	}
 	raft.VPeer{P: &h.node.p}.Normalize()
-	if h.eng.stepWorkReady.getReadyMap(1) != nil {
-		// drained
+	c.pollEngine(h)
+}
+
+// pollEngine transfers the engine's own work-ready signals (raised by
+// processSteps etc. on the real workReady objects) to the harness flags.
+func (c *nxCluster) pollEngine(h *nxHost) {
+	drain := func(wr *workReady) bool {
+		select {
+		case <-wr.waitCh(1):
+		default:
+		}
+		return len(wr.getReadyMap(1)) > 0
+	}
+	if drain(h.eng.stepWorkReady) {
+		h.pipe.step = true
+	}
+	if drain(h.eng.commitWorkReady) {
+		h.pipe.commit = true
+	}
+	if drain(h.eng.applyWorkReady) {
+		h.pipe.apply = true
 	}
 }
 
@@ -309,6 +332,7 @@ func (c *nxCluster) commitWorker(h *nxHost) {
 	h.pipe.commit = false
 	nodes := map[uint64]*node{nxShard: h.node}
 	h.eng.processCommits(map[uint64]struct{}{nxShard: {}}, nodes)
+	c.pollEngine(h)
 }
 
 func (c *nxCluster) applyWorker(h *nxHost) {
@@ -344,6 +368,7 @@ func (c *nxCluster) snapshotWorker(h *nxHost) {
 
 // settle runs every ready worker other than the held-back ones until quiet.
 func (c *nxCluster) settle(h *nxHost) {
+	defer c.flush(h)
 	for i := 0; i < 50 && c.viol == "" && h.up; i++ {
 		switch {
 		case h.pipe.commit:
@@ -362,14 +387,25 @@ func (c *nxCluster) settle(h *nxHost) {
 
 // ---------------------------------------------------------------- network
 
+// onSend is the node's sendRaftMessage hook. raft emits the messages of one
+// step in map iteration order; they are collected per step and flushed in a
+// canonical order (stable by target) so that replays are deterministic. A
+// partially sent batch is covered by crash-after-step plus message drops.
 func (c *nxCluster) onSend(h *nxHost, m pb.Message) {
-	h.hook("send " + m.Type.String())
 	c.checkSend(h, m)
 	data := pb.MustMarshal(&m)
 	var cp pb.Message
 	pb.MustUnmarshal(&cp, data)
-	c.seq++
-	c.msgs = append(c.msgs, nxMsg{m: cp, seq: c.seq})
+	h.outbox = append(h.outbox, cp)
+}
+
+func (c *nxCluster) flush(h *nxHost) {
+	sort.SliceStable(h.outbox, func(i, j int) bool { return h.outbox[i].To < h.outbox[j].To })
+	for _, m := range h.outbox {
+		c.seq++
+		c.msgs = append(c.msgs, nxMsg{m: m, seq: c.seq})
+	}
+	h.outbox = nil
 }
 
 func (c *nxCluster) chanPos(i int) int {
@@ -420,10 +456,22 @@ func (c *nxCluster) guarded(h *nxHost, crashAt int, f func()) {
 		f()
 	}()
 	h.crashAt = 0
+	c.flush(h)
 	if crashed {
 		c.restart(h)
 		return
 	}
+	if crashAt > 0 {
+		// the requested crash point does not exist in this step: identical to
+		// the plain event, refund the deviation
+		c.used.crashes--
+		if c.cfg.MaxDev > 0 {
+			c.devs--
+		}
+	}
+	c.settle(h)
+	c.flush(h)
+	return
 	if crashAt > 0 {
 		// the requested crash point does not exist in this step: nothing happened
 		return
@@ -629,7 +677,7 @@ func (c *nxCluster) Enabled() []uint32 {
 
 // hookCount dry-runs nothing: the number of hook points of a delivery is
 // bounded by a constant; non-existing points are no-ops (see guarded).
-func (c *nxCluster) hookCount(i int) int { return 6 }
+func (c *nxCluster) hookCount(i int) int { return 2 }
 
 func (c *nxCluster) Step(e uint32) (msg string) {
 	defer func() {
@@ -714,6 +762,7 @@ func (c *nxCluster) Step(e uint32) (msg string) {
 			break
 		}
 		op.rs = rs
+		op.key = rs.key
 		c.guarded(h, 0, func() { c.stepWorker(h) })
 	case nxRead:
 		h := c.byID[uint64(a)]
